@@ -62,3 +62,35 @@ class Twice:  # one member type on two paths with different wrappers
     p: mod_a.Item
     q: t.Optional[mod_a.Item]
     r: list[mod_a.Item]
+
+
+@dataclasses.dataclass
+class Options:  # module-level class with the same simple name as Job.Options, other field types
+    level: str
+
+
+@dataclasses.dataclass
+class Job:
+    @dataclasses.dataclass
+    class Options:
+        level: int
+
+    opts: "Job.Options"
+
+
+@dataclasses.dataclass
+class Stage:
+    opts: Job.Options
+
+
+@dataclasses.dataclass
+class Pipeline:  # Job.Options is reached twice: through Stage and directly
+    first: Stage
+    opts: Job.Options
+
+
+@dataclasses.dataclass
+class Pipeline2:
+    opts: Job.Options
+    first: Stage
+    plain: Options
